@@ -72,7 +72,11 @@ def opUStructure (args res : List String) : Verdict :=
       let badBlock := (blocks.zipIdx).findSome? fun (blk, i) =>
         if (Spec.GF.syndromes (blk.1 ++ blk.2) ec).all (· == 0) then none else some s!"nonzero-syndrome:block{i}"
       let m := (Model.structureBuf data.toArray l v).val
+      let g := Spec.GF.genPoly ec
+      let badEc := (blocks.zipIdx).findSome? fun (blk, i) =>
+        if blk.2 == Spec.GF.remainder blk.1 g then none else some s!"ec-codewords-are-not-the-remainder:block{i}"
       { spec := firstFail [
+          badEc,
           cmp "block-sizes" (toString (Spec.Decode.blockSizes v l)) (toString (blocks.map (·.1.length))),
           cmp "deinterleaved-data" (toHex data) (toHex (blocks.flatMap (·.1))),
           badBlock,
